@@ -106,7 +106,8 @@ def handle (op : String) (j : Json) : Option (Except String Json) :=
       let walk := jobj [("json", pathsJson (getFileList D ⟨[], [sfx], [jsonExt]⟩ excl)),
                         ("tsv", pathsJson (getFileList D ⟨[], [sfx], [tsvExt]⟩ excl)),
                         ("json_flat", pathsJson (discover t excl sfx jsonExt)),
-                        ("tsv_flat", pathsJson (discover t excl sfx tsvExt))]
+                        ("tsv_flat", pathsJson (discover t excl sfx tsvExt)),
+                        ("is_listing", jbool (isListingB t))]
       match load t excl sfx with
       | .error e => pure <| jobj [("error", Json.str (errName e)), ("walk", walk)]
       | .ok g => pure <| jobj [("sidecars", jarr (g.sidecars.map (fileJson g))),
